@@ -190,7 +190,7 @@ class PDFPage:
             return us_letter
 
         try:
-            return parse_rect(resolve1(val) for val in resolve1(value))
+            return parse_rect(resolve1(val) for val in list_value(value))
 
         except PDFValueError:
             log.warning("Invalid MediaBox in /Page, defaulting to US Letter")
@@ -202,7 +202,7 @@ class PDFPage:
             return mediabox
 
         try:
-            return parse_rect(resolve1(val) for val in resolve1(value))
+            return parse_rect(resolve1(val) for val in list_value(value))
 
         except PDFValueError:
             log.warning("Invalid CropBox in /Page, defaulting to MediaBox")
